@@ -25,6 +25,7 @@ func init() {
 	workloadFeatures["whale-exit"] = featWhaleExit
 	workloadFeatures["c15"] = featC15
 	workloadFeatures["avg-unavailable"] = featAvgUnavailable
+	workloadFeatures["bank-mixed-conversion"] = featBankMixedConversion
 	workloadFeatures["overflow-conversion"] = featOverflow
 	workloadFeatures["spr-impostor"] = featImpostor
 	workloadFeatures["oob-pre202"] = featOutOfBand
@@ -736,6 +737,25 @@ func featC12(m *gen.Mixed, ts *gen.TieSetup, p *modelParams) {
 			if len(st) >= 25 {
 				s.SPR = m.W.StdSPRs(h, st, sp)
 			}
+		})
+	}
+}
+
+// featBankMixedConversion (tagged): a bank-era batch with a PEG request and another conversion
+// (recorded finding: the bank payout loop pays the other conversion a second time).
+func featBankMixedConversion(m *gen.Mixed, ts *gen.TieSetup, p *modelParams) {
+	e := m.W.Eras
+	k := forge.NewKey(fmt.Sprintf("bankmixed-%d", p.Seed))
+	fundMany(m, ts.Whale, e.TxConv+6, []forge.Key{k}, func(i int) uint64 { return 1_000 * 1e8 })
+	for _, h := range []uint32{e.ConversionLimit + 4, e.V4 + 4} {
+		h := h
+		if h+3 >= e.V20 {
+			continue
+		}
+		m.ForceGraded[h] = true
+		m.ForceGraded[h+1] = true
+		m.Schedule(h, func(v *gen.View, s *forge.BlockSpec) {
+			s.Tx = append(s.Tx, forge.SignedBatch([]forge.Tx{forge.Conversion(k.FA(), fat2.PTickerUSD, 5*1e8, fat2.PTickerPEG), forge.Conversion(k.FA(), fat2.PTickerUSD, 7*1e8, fat2.PTickerEUR)}, m.W.EntryTime(h)+98, k))
 		})
 	}
 }
